@@ -17,7 +17,7 @@ R = z3.RealSort()
 K = z3.IntSort()          # keys (asset symbols, portfolio ids): a totally ordered infinite set
 B = z3.BoolSort()
 
-DECIDE_RLIMIT = 3_000_000
+DECIDE_RLIMIT = 250_000
 
 
 class Unmodelled(Exception):
@@ -74,9 +74,11 @@ class Ctx:
         self.pc = []
         self.fresh_n = 0
         self.ghost = {}
+        self.guards = []
         if self.mode == 'sym':
             self.solver = z3.Solver()
             self.solver.set('rlimit', DECIDE_RLIMIT)
+            self.solver.set('timeout', 1500)     # feasibility pruning only: unknown => both branches are explored
 
     def assume(self, c):
         if self.mode == 'conc':
@@ -150,8 +152,45 @@ class Ctx:
         """An asset symbol / portfolio id (a str in concrete mode; order-isomorphic embedding into Int)."""
         if self.mode == 'conc':
             v = self._cval(name, lambda r: r.randint(0, 5), lambda v: int(round(v)))
+            self.keyorder[key_to_str(v)] = v
             return key_to_str(v)
-        return SymKey(self._const(name, K))
+        k = SymKey(self._const(name, K))
+        self.keyorder[name] = k
+        kt = self.ghost.setdefault('keyterms', [])
+        if not any(k.t.eq(x) for x in kt):
+            kt.append(k.t)
+            for u in list(self.ghost.setdefault('universals', [])):
+                self.assume(u(k.t))
+        return k
+
+    def conc_keys(self):
+        """concrete mode: the finite key universe = every key declared so far (sorted)"""
+        return sorted(self.keyorder)
+
+    def sel(self, arrname, sort, keystr, gen=None):
+        """concrete mode: value of the (model / random) array `arrname` at a declared key"""
+        kv = self.keyorder[keystr]
+        name = '%s[%s]' % (arrname, keystr)
+        if name in self.values:
+            return self.values[name]
+        if getattr(self, 'model', None) is not None:
+            arr = z3.Const(arrname, z3.ArraySort(K, sort))
+            v = self.model.eval(z3.Select(arr, z3.IntVal(kv)), model_completion=True)
+            if z3.is_true(v) or z3.is_false(v):
+                out = z3.is_true(v)
+            elif z3.is_rational_value(v):
+                f = v.as_fraction()
+                out = float(f)
+            elif z3.is_algebraic_value(v):
+                out = float(v.approx(20).as_fraction())
+            else:
+                out = 0.0
+        elif self.rng is not None and gen is not None:
+            out = gen(self.rng)
+        else:
+            out = False if sort == B else 0.0
+        self.values[name] = out
+        return out
 
     def time(self, name):
         """A timestamp: seconds since the epoch (UTC)."""
@@ -160,6 +199,34 @@ class Ctx:
             v = self._cval(name, lambda r: 1577836800 + r.randint(0, 40) * 21600 + r.choice([0, 52200, 75600, 75599, 52199]), float)
             return pd.Timestamp(float(v), unit='s', tz='UTC')
         return SymTime(self._const(name, R))
+
+    def ceval(self, term, gen=None, conv=float):
+        """concrete mode: value of a z3 term (ghost function application, array cell) in the model / random"""
+        name = 'term:' + str(term)
+        if name in self.values:
+            return self.values[name]
+        if getattr(self, 'model', None) is not None:
+            v = self.model.eval(term, model_completion=True)
+            if z3.is_true(v) or z3.is_false(v):
+                out = z3.is_true(v)
+            elif z3.is_int_value(v):
+                out = v.as_long()
+            elif z3.is_rational_value(v):
+                out = float(v.as_fraction())
+            elif z3.is_algebraic_value(v):
+                out = float(v.approx(20).as_fraction())
+            else:
+                raise Unmodelled('cannot concretise model value %s' % v)
+        elif self.rng is not None and gen is not None:
+            out = gen(self.rng)
+        else:
+            out = conv(0)
+        self.values[name] = out
+        return out
+
+    def keyterm(self, keystr):
+        """concrete mode: the z3 integer standing for a declared concrete key"""
+        return z3.IntVal(self.keyorder[keystr])
 
     def _cval(self, name, gen, conv):
         if name in self.values:
@@ -180,7 +247,7 @@ class Ctx:
             self.conc_results.append((clause, kind, bool(ok), meta))
             return
         goal = tobool(goal)
-        pc = list(self.pc) + [tobool(e) for e in extra]
+        pc = list(self.pc) + list(self.guards) + [tobool(e) for e in extra]
         key = (clause, tuple(c.get_id() for c in pc), goal.get_id())
         if key in self.seen:
             return
@@ -729,7 +796,7 @@ class SymTime:
         self.t = t
 
     def _c(self, o, f):
-        if o is None:
+        if o is None or isinstance(o, SymOpt):
             return NotImplemented
         return SymBool(f(self.t, lift(o)))
 
